@@ -196,6 +196,13 @@ def gen_case(rng, kind, n=None):
     if "std" in K:
         el, full, req = K["std"]
         case["std"] = rand_std(rng, full, req)
+        if kind == "line" and rng.random() < 0.45:
+            # create_lines also takes a list of std types: second type with its own optional parameters, mixed per element
+            case["std2"] = rand_std(rng, full, req)
+            if rng.random() < 0.5:                       # make the zero-sequence data differ between the two types
+                for k in GROUPS[0]:
+                    case["std2"].pop(k, None) if "r0_ohm_per_km" in case["std"] else case["std2"].__setitem__(k, full[k] * 2)
+            case["std_names"] = [rng.choice(["S", "S2"]) for _ in range(n)]
     # arguments
     args = {}
     for a in K["args"]:
@@ -269,6 +276,8 @@ def build_base(case, rng_unused=None):
     net = base_net(None)
     if "std" in K:
         pp.create_std_type(net, case["std"], "S", K["std"][0])
+        if "std2" in case:
+            pp.create_std_type(net, case["std2"], "S2", K["std"][0])
     # sibling tables first (their optional columns must not influence the target table)
     for sib, lim in case.get("siblings", {}).items():
         if sib == "load":
@@ -324,7 +333,7 @@ def run_both(case, base=None):
         for sname, bname, tab in K["nodes"]:
             kw[sname] = case["nodes"][sname][i]
         if "std" in K:
-            kw["std_type"] = "S"
+            kw["std_type"] = case["std_names"][i] if "std_names" in case else "S"
         if case["index"] is not None:
             kw["index"] = case["index"][i]
         try:
@@ -345,7 +354,7 @@ def run_both(case, base=None):
     if "count_arg" in K:
         kw[K["count_arg"]] = n
     if "std" in K:
-        kw["std_type"] = "S"
+        kw["std_type"] = list(case["std_names"]) if "std_names" in case else "S"
     if case["index"] is not None:
         kw["index"] = case["index"]
     rej_b = None
